@@ -20,10 +20,10 @@ import (
 // ---- C06: overload resolution picks the first applicable candidate and leaves no residue -------
 
 type c06Case struct {
-	Kind   string     `json:"kind"`   // func | method | ptrmethod | table | iface | op | cast
+	Kind   string     `json:"kind"`         // func | method | ptrmethod | table | iface | op | cast
 	Op     string     `json:"op,omitempty"` // kind op: the binary operator (+ - * / % & | << < >)
-	Params [][]string `json:"params"` // per candidate: parameter declarations ("x int", "xs ...int")
-	TParam []string   `json:"tparam"` // per candidate: type parameter list ("" or "[T any]")
+	Params [][]string `json:"params"`       // per candidate: parameter declarations ("x int", "xs ...int")
+	TParam []string   `json:"tparam"`       // per candidate: type parameter list ("" or "[T any]")
 	Args   []string   `json:"args"`
 	XGo    bool       `json:"xgo,omitempty"` // a candidate takes a big-number parameter: XGo-builtin configuration
 }
